@@ -12,6 +12,8 @@ def m(prop, name, file, old, new, expect, count=1):
 m("C01","drop-stride-test","flat.go","	if len(c) != stride {\n		return nil, ErrStrideMismatch{Got: len(c), Want: stride}\n	}\n	flatCoords = append","	flatCoords = append","stride-guard/geom.deflate0")
 m("C01","end-before-deflate","flat.go","		flatCoords, err = deflate1(flatCoords, coords1, stride)\n		if err != nil {\n			return nil, nil, err\n		}\n		ends = append(ends, len(flatCoords))","		ends = append(ends, len(flatCoords))\n		flatCoords, err = deflate1(flatCoords, coords1, stride)\n		if err != nil {\n			return nil, nil, err\n		}","ends-post-append/geom.deflate2")
 m("C01","stride-literal","polygon.go","	g.stride = layout.Stride()","	g.stride = 2","stride-layout-coupled/geom.NewPolygonFlat")
+m("C01","revert-multipoint-setcoords-reset","multipoint.go","				g.ends = nil\n				return nil, err","				return nil, err","rejected-setter-consistent/(*geom.MultiPoint).SetCoords")
+m("C01","revert-inflate1-empty-guard","flat.go","	if offset == end {\n		// Nothing to unpack, and nothing to divide: the stride is zero for\n		// geometries without a layout, which can only be empty.\n		return []Coord{}\n	}\n","","stride-division-guarded/geom.inflate1")
 m("C01","drop-setcoords-error","linestring.go","	if err := g.setCoords(coords); err != nil {\n		return nil, err\n	}\n	return g, nil","	_ = g.setCoords(coords)\n	return g, nil","errors-propagated/(*geom.LineString).SetCoords")
 # ---- C02
 m("C02","push-append-before-check","polygon.go","	if lr.layout != g.layout {\n		return ErrLayoutMismatch{Got: lr.layout, Want: g.layout}\n	}\n	g.flatCoords = append(g.flatCoords, lr.flatCoords...)","	g.flatCoords = append(g.flatCoords, lr.flatCoords...)\n	if lr.layout != g.layout {\n		return ErrLayoutMismatch{Got: lr.layout, Want: g.layout}\n	}","push-guarded-atomic/(*geom.Polygon).Push")
@@ -29,10 +31,12 @@ m("C03","readuint32-via-read","encoding/wkbcommon/binary.go","	var buf [4]byte\n
 m("C03","fixed-byte-order","encoding/wkb/wkb.go","		flatCoords, err := wkbcommon.ReadFlatCoords1(r, byteOrder, layout.Stride())","		flatCoords, err := wkbcommon.ReadFlatCoords1(r, NDR, layout.Stride())","byte-order-threaded/encoding/wkb.Read")
 m("C03","scan-no-type-check","encoding/ewkb/sql.go","	p1, ok := got.(*geom.Point)\n	if !ok {\n		return wkbcommon.ErrUnexpectedType{Got: p1, Want: p}\n	}\n	p.Point = p1","	p1, _ := got.(*geom.Point)\n	p.Point = p1","sql-wrappers/(*encoding/ewkb.Point).Scan")
 # ---- C04
-m("C04","no-limit-rings","encoding/wkbcommon/wkbcommon.go","	if limit := MaxGeometryElements[2]; limit >= 0 && int(n) > limit {\n		return nil, nil, ErrGeometryTooLarge{Level: 2, N: int(n), Limit: limit}\n	}\n","","count-guard/encoding/wkbcommon.ReadFlatCoords2")
-m("C04","make-before-limit","encoding/wkbcommon/wkbcommon.go","	if limit := MaxGeometryElements[1]; limit >= 0 && int(n) > limit {\n		return nil, ErrGeometryTooLarge{Level: 1, N: int(n), Limit: limit}\n	}\n	flatCoords := make([]float64, int(n)*stride)","	flatCoords := make([]float64, int(n)*stride)\n	if limit := MaxGeometryElements[1]; limit >= 0 && int(n) > limit {\n		return nil, ErrGeometryTooLarge{Level: 1, N: int(n), Limit: limit}\n	}","count-guard/encoding/wkbcommon.ReadFlatCoords1")
-m("C04","wrong-level-rings","encoding/wkbcommon/wkbcommon.go","	if limit := MaxGeometryElements[2]; limit >= 0 && int(n) > limit {\n		return nil, nil, ErrGeometryTooLarge{Level: 2,","	if limit := MaxGeometryElements[1]; limit >= 0 && int(n) > limit {\n		return nil, nil, ErrGeometryTooLarge{Level: 1,","count-guard/encoding/wkbcommon.ReadFlatCoords2")
-m("C04","ewkb-collection-unchecked","encoding/ewkb/ewkb.go","		if limit := wkbcommon.MaxGeometryElements[1]; limit >= 0 && int(n) > limit {\n			return nil, wkbcommon.ErrGeometryTooLarge{Level: 1, N: int(n), Limit: limit}\n		}\n		gc := geom","		gc := geom","count-guard/encoding/ewkb.Read")
+m("C04","no-limit-rings","encoding/wkbcommon/wkbcommon.go","	if limit := MaxGeometryElements[2]; limit >= 0 && uint64(n) > uint64(limit) {\n		return nil, nil, ErrGeometryTooLarge{Level: 2, N: int(n), Limit: limit}\n	}\n","","count-guard/encoding/wkbcommon.ReadFlatCoords2")
+m("C04","make-before-limit","encoding/wkbcommon/wkbcommon.go","	if limit := MaxGeometryElements[1]; limit >= 0 && uint64(n) > uint64(limit) {\n		return nil, ErrGeometryTooLarge{Level: 1, N: int(n), Limit: limit}\n	}\n	flatCoords := make([]float64, int(n)*stride)","	flatCoords := make([]float64, int(n)*stride)\n	if limit := MaxGeometryElements[1]; limit >= 0 && uint64(n) > uint64(limit) {\n		return nil, ErrGeometryTooLarge{Level: 1, N: int(n), Limit: limit}\n	}","count-guard/encoding/wkbcommon.ReadFlatCoords1")
+m("C04","wrong-level-rings","encoding/wkbcommon/wkbcommon.go","	if limit := MaxGeometryElements[2]; limit >= 0 && uint64(n) > uint64(limit) {\n		return nil, nil, ErrGeometryTooLarge{Level: 2,","	if limit := MaxGeometryElements[1]; limit >= 0 && uint64(n) > uint64(limit) {\n		return nil, nil, ErrGeometryTooLarge{Level: 1,","count-guard/encoding/wkbcommon.ReadFlatCoords2")
+m("C04","revert-wkb-collection-limit","encoding/wkb/wkb.go","		if limit := wkbcommon.MaxGeometryElements[1]; limit >= 0 && uint64(n) > uint64(limit) {\n			return nil, wkbcommon.ErrGeometryTooLarge{Level: 1, N: int(n), Limit: limit}\n		}\n		gc := geom.NewGeometryCollection()\n","		gc := geom.NewGeometryCollection()\n","count-guard/encoding/wkb.Read")
+m("C04","revert-count-compared-as-int","encoding/wkbcommon/wkbcommon.go","	if limit := MaxGeometryElements[1]; limit >= 0 && uint64(n) > uint64(limit) {","	if limit := MaxGeometryElements[1]; limit >= 0 && int(n) > limit {","count-guard/encoding/wkbcommon.ReadFlatCoords1")
+m("C04","ewkb-collection-unchecked","encoding/ewkb/ewkb.go","		if limit := wkbcommon.MaxGeometryElements[1]; limit >= 0 && uint64(n) > uint64(limit) {\n			return nil, wkbcommon.ErrGeometryTooLarge{Level: 1, N: int(n), Limit: limit}\n		}\n		gc := geom","		gc := geom","count-guard/encoding/ewkb.Read")
 m("C04","unchecked-assert","encoding/wkb/wkb.go","			p, ok := g.(*geom.Point)\n			if !ok {\n				return nil, wkbcommon.ErrUnexpectedType{Got: g, Want: &geom.Point{}}\n			}","			p := g.(*geom.Point)","panic-free-decoders/encoding/wkb.Read/assert")
 # ---- C05
 m("C05","swap-z-m-suffix","encoding/wkt/wkt.go","	tZ                  = \"Z \"\n	tM                  = \"M \"","	tZ                  = \"M \"\n	tM                  = \"Z \"","keyword-chain/encoding/wkt")
@@ -84,6 +88,7 @@ m("C15","xyz-parallel-t-wrong-dot","xyz/xyz.go","			t = e / c","			t = d / c","c
 m("C15","xyz-general-s-sign","xyz/xyz.go","		s = (b*e - c*d) / denom","		s = (c*d - b*e) / denom","closest-points-orthogonal/xyz.DistanceLineToLine")
 m("C12","hcoords-w-sign","xy/internal/hcoords/hcoords.go","	w := line1Xdiff*line2Y - line2X*line1Ydiff","	w := line1Xdiff*line2Y + line2X*line1Ydiff","intersection-on-both-lines/")
 m("C20","rdp-projection-denominator","xy/rdp_simplify.go","		t := ((point[0]-x)*dx + (point[1]-y)*dy) / (dx*dx + dy*dy)","		t := ((point[0]-x)*dx + (point[1]-y)*dy) / (dx*dx + dy)","point-segment-formula/xy.distanceFromSegmentSquared")
+m("C14","revert-fan-base-per-polygon","xy/area_centroid.go","func (calc *AreaCentroidCalculator) setBasePoint(basePt geom.Coord) {\n	calc.basePt = basePt\n}","func (calc *AreaCentroidCalculator) setBasePoint(basePt geom.Coord) {\n	if calc.basePt == nil {\n		calc.basePt = basePt\n	}\n}","fan-base-local/")
 m("C14","centroid-area-branch-untranslated","xy/area_centroid.go","func centroid3(p1, p2, p3, c geom.Coord) {\n	c[0] = p1[0] + p2[0] + p3[0]\n	c[1] = p1[1] + p2[1] + p3[1]","func centroid3(p1, p2, p3, c geom.Coord) {\n	c[0] = (p2[0] - p1[0]) + (p3[0] - p1[0])\n	c[1] = (p2[1] - p1[1]) + (p3[1] - p1[1])","centroid-frame-consistent/(*xy.AreaCentroidCalculator).GetCentroid")
 m("C15","xyz-no-upper-clamp","xyz/xyz.go","	if r >= 1.0 {\n		return Distance(point, lineEnd)\n	}\n\n	// compute closest point q","	// compute closest point q","segment-distance-clamped/xyz.DistancePointToLine")
 # ---- C16
@@ -113,6 +118,7 @@ m("C08","overlaps-open-interval","bounds.go","		if b.min[i] > b2.max[i] || b.max
 m("C08","overlapspoint-min-only","bounds.go","		if b.min[i] > point[i] || b.max[i] < point[i] {","		if b.min[i] > point[i] {","overlap-closed-intervals/(*geom.Bounds).OverlapsPoint")
 m("C09","polygon-area-not-halved","polygon.go","	return doubleArea2(g.flatCoords, 0, g.ends, g.stride) / 2","	return doubleArea2(g.flatCoords, 0, g.ends, g.stride)","measure-delegation/(*geom.Polygon).Area")
 m("C09","mls-length-offset-1","multilinestring.go","	return length2(g.flatCoords, 0, g.ends, g.stride)","	return length2(g.flatCoords, g.stride, g.ends, g.stride)","measure-delegation/(*geom.MultiLineString).Length")
+m("C18","revert-nil-coordinate-null","encoding/geojson/geojson.go","		if val.IsNil() {\n			// As encoding/json does: a nil slice (the coordinate of an empty\n			// point in a MultiPoint) is null, not an empty array.\n			return append(buf, \"null\"...), nil\n		}\n","","geojson-nil-coordinate-null/")
 m("C19","encoder-local-time","encoding/igc/encode.go","		t := time.Unix(int64(coord[3]), 0).UTC()","		t := time.Unix(int64(coord[3]), 0)","utc-both-sides/(*encoding/igc.Encoder).Encode")
 m("C19","decoder-local-time","encoding/igc/decode.go","	date := time.Date(p.year, time.Month(p.month), p.day, hour, minute, second, nsec, time.UTC)\n	if date.Before","	date := time.Date(p.year, time.Month(p.month), p.day, hour, minute, second, nsec, time.Local)\n	if date.Before","utc-both-sides/(*encoding/igc.parser).parseB")
 m("C01","multipoint-default-ends-off-by-one","multipoint.go","			g.ends[i] = (i + 1) * g.stride","			g.ends[i] = i * g.stride","multipoint-ends/geom.NewMultiPointFlat")
